@@ -89,7 +89,7 @@ def resolve_gradient(node: CSSProperty, config: Config):
         gradient_value = gradient_fn.arguments if gradient_fn else [CSSValue([tokens.Field('', 0)])]
         gradient_fn = FunctionCall('linear-gradient', gradient_value)
 
-        if not config.context:
+        if not is_value_scope(config):
             node.name = 'background-image'
         node.value = [CSSValue([gradient_fn])]
         node.snippet = True
